@@ -42,7 +42,7 @@ Definition version_triple (h : header) : N * N * N :=
   (h_major h, N.shiftr (h_minor h) 4, N.land (h_minor h) 15).
 
 (* tag table *)
-Definition tag_entry := (N * N * N)%type.    (* signature, offset, size *)
+Notation tag_entry := (N * N * N)%type (only parsing).    (* signature, offset, size *)
 
 Fixpoint read_entries (fuel : nat) (n : N) (tdo : N) (endd : N) (acc : list tag_entry)
   : prog (res (N * list tag_entry)) :=
